@@ -32,6 +32,7 @@ def src(rel):
     s = re.sub(r"/\*.*?\*/", " ", s, flags=re.S)
     s = re.sub(r"//[^\n]*", " ", s)
     # the guarded verification hooks are not part of the library's behaviour
+    s = re.sub(r"#ifdef FASTSCAPELIB_VERIF_HOOKS.*?#endif", " ", s, flags=re.S)
     s = re.sub(r"FS_VERIF_POINT\([^;]*\);", " ", s)
     return s
 
@@ -338,7 +339,9 @@ def pool_orders(out, info):
     out.append("/-- does `resume()` take `m_cv_m` before `notify_all` (closing the lost-wake-up window)? -/")
     out.append("def poolNotifyAfterLock : Bool := %s" % ("true" if under else "false"))
     b = func_body(s, r"void thread_pool<T>::init_pause_jobs\(\)\s*\{", "init_pause_jobs")
-    need(re.search(r"std::unique_lock<std::mutex> lk\(m_cv_m\);\s*\+\+m_paused_count;\s*m_cv\.wait\(lk\);\s*--m_paused_count;", b), "pause job body")
+    # the pause job: counted, then waits UNDER A PREDICATE that only resume() clears (a condition
+    # variable may wake up spuriously), then uncounted
+    need(re.search(r"std::unique_lock<std::mutex> lk\(m_cv_m\);\s*\+\+m_paused_count;\s*while\s*\(m_pause_requested\)\s*\{?\s*m_cv\.wait\(lk\);\s*\}?\s*--m_paused_count;", b), "pause job body")
     # shape of the protocol the model `Fs.Pool4` transcribes (each fact is a step of the model's
     # caller / worker programs; a change of the shape breaks `source_protocol_shape`)
     def has(pat, body):
@@ -350,10 +353,10 @@ def pool_orders(out, info):
     start_b = func_body(s, r"void thread_pool<T>::start\(\)\s*\{", "start")
     resize_b = func_body(s, r"void thread_pool<T>::resize\(.*?\)\s*\{", "resize")
     shape = [
-        ("pause_waits_then_publishes_then_spins_until_all_counted",
-         has(r"if\s*\(!m_paused\)\s*\{\s*wait\(\);\s*set_tasks\(m_pause_jobs\);\s*run_tasks\(\);\s*m_paused = true;\s*while\s*\(m_paused_count != m_size\)", pause_b)),
-        ("resume_notifies_clears_paused_then_waits",
-         has(r"if\s*\(m_paused\)\s*\{.*m_cv\.notify_all\(\);.*m_paused = false;\s*wait\(\);", b if False else func_body(s, r"void thread_pool<T>::resume\(\)\s*\{", "resume"))),
+        ("pause_waits_then_requests_the_pause_under_the_mutex_then_publishes_then_spins_until_all_counted",
+         has(r"if\s*\(!m_paused\)\s*\{\s*wait\(\);\s*\{\s*std::lock_guard<std::mutex> lk\(m_cv_m\);\s*m_pause_requested = true;\s*\}\s*set_tasks\(m_pause_jobs\);\s*run_tasks\(\);\s*m_paused = true;\s*while\s*\(m_paused_count != m_size\)", pause_b)),
+        ("resume_clears_the_request_and_notifies_under_the_mutex_clears_paused_then_waits",
+         has(r"if\s*\(m_paused\)\s*\{.*std::lock_guard<std::mutex> lk\(m_cv_m\);\s*m_pause_requested = false;\s*m_cv\.notify_all\(\);.*m_paused = false;\s*wait\(\);", b if False else func_body(s, r"void thread_pool<T>::resume\(\)\s*\{", "resume"))),
         ("run_tasks_starts_resumes_then_publishes",
          has(r"if\s*\(!m_started\)\s*start\(\);\s*if\s*\(m_paused\)\s*resume\(\);\s*for\s*\(", runt_b)),
         ("run_blocks_publishes_then_waits", has(r"set_tasks\(p_jobs\);\s*run_tasks\(\);\s*wait\(\);", runb_b)),
